@@ -30,7 +30,7 @@ def didKeyDerivable (kt : String) : Bool := ["ed25519", "x25519kw", "p256kw", "p
 /-- NIST key agreement keys: the did:key built from the public JWK equals the did:key built from the key (flag `j1`) -/
 def jwkDidKey (kt : String) : Bool := ["p256kw", "p384kw", "p521kw"].contains kt
 
-def importable (kt : String) : Bool := ["ed25519", "p256", "p256der", "p384"].contains kt
+def importable (kt : String) : Bool := ["ed25519", "p256", "p256der", "p384", "secp256k1"].contains kt
 
 /-- one call; `failAt` = index of the mutating storage call that fails (crash), if any. Returns (state, outcome) -/
 def step (s : St) (op : String) (failAt : Option Nat) : St × String :=
@@ -131,7 +131,8 @@ def oracle06 (impl : String) : String × String :=
     let probes := ((tail.splitOn "reopen: ").getLast?.getD "").splitOn " " |>.filter (· != "")
     let lost := probes.any fun p => p.startsWith "live:fail"
     let changed := probes.any fun p => p.endsWith "/0"
-    if didKeyDiffers then ("ID-DERIVED-FROM-DID-KEY-IS-NOT-THE-KEY-ID", "")
+    if outs.any (· == "ok:idignored") then ("CALLER-CHOSEN-ID-IGNORED", "")
+    else if didKeyDiffers then ("ID-DERIVED-FROM-DID-KEY-IS-NOT-THE-KEY-ID", "")
     else if lost then ("KEY-LOST-AFTER-REOPEN", "")
     else if changed then ("KEY-MATERIAL-CHANGED-AFTER-REOPEN", "")
     else if notThumb then ("=", "id-not-thumbprint")     -- judged against the input by the caller
